@@ -114,9 +114,8 @@ pub open spec fn listing_ok(dir: Seq<char>, l: Seq<(String, PathBuf)>) -> bool {
     &&& forall|i: int| 0 <= i < l.len() ==> (#[trigger] l[i]).1@ == child(dir, l[i].0@) && is_wal_name(l[i].0@) && file_exists(l[i].1@)
     &&& forall|i: int, j: int| 0 <= i < j < l.len() ==> (#[trigger] l[i]).0@ != (#[trigger] l[j]).0@
 }
-pub open spec fn on_disk(dir: Seq<char>, name: Seq<char>) -> bool {
-    exists|i: int| 0 <= i < wal_listing(dir).len() && (#[trigger] wal_listing(dir)[i]).0@ == name
-}
+pub open spec fn name_listed(l: Seq<(String, PathBuf)>, x: Seq<char>) -> bool { exists|i: int| 0 <= i < l.len() && (#[trigger] l[i]).0@ == x }
+pub open spec fn on_disk(dir: Seq<char>, name: Seq<char>) -> bool { name_listed(wal_listing(dir), name) }
 #[verifier::external_body] pub fn list_wal_segments_in_dir(data_dir: &Path) -> (r: Result<Vec<(String, PathBuf)>>)
     ensures r.is_ok() ==> r.unwrap()@ == wal_listing(data_dir@) && listing_ok(data_dir@, wal_listing(data_dir@)) { unimplemented!() }
 #[verifier::external_body] pub fn read_manifest_layout(path: &Path) -> (r: Result<Option<ManifestLayout>>)
@@ -181,7 +180,6 @@ impl BTreeSet<String> {
     #[verifier::external_body] pub fn contains(&self, s: &String) -> (b: bool) ensures b == self@.contains(s@) { unimplemented!() }
 }
 pub open spec fn name_in(s: Seq<String>, x: Seq<char>) -> bool { exists|i: int| 0 <= i < s.len() && (#[trigger] s[i])@ == x }
-pub open spec fn name_listed(l: Seq<(String, PathBuf)>, x: Seq<char>) -> bool { exists|i: int| 0 <= i < l.len() && (#[trigger] l[i]).0@ == x }
 #[verifier::external_body] pub fn vx_names_of(v: &Vec<(String, PathBuf)>) -> (r: BTreeSet<String>)
     ensures forall|x: Seq<char>| #[trigger] r@.contains(x) <==> name_listed(v@, x) { unimplemented!() }
 #[verifier::external_body] pub fn vx_set_of(v: &Vec<String>) -> (r: BTreeSet<String>)
@@ -333,25 +331,128 @@ pub proof fn lemma_dedup_sorted(s: Seq<String>)
                     }
                 }
             }
-            assert forall|x: Seq<char>| name_in(s, x) <==> name_in(d, x) by {
-                if name_in(s, x) {
-                    let i = choose|i: int| 0 <= i < s.len() && (#[trigger] s[i])@ == x;
-                    if i < t.len() {
-                        assert(t[i]@ == x); assert(name_in(t, x));
-                        let j = choose|j: int| 0 <= j < r.len() && (#[trigger] r[j])@ == x;
-                        assert(d[j]@ == x);
-                    } else { assert(d[d.len() - 1]@ == x); }
-                }
-                if name_in(d, x) {
-                    let j = choose|j: int| 0 <= j < d.len() && (#[trigger] d[j])@ == x;
-                    if j < r.len() {
-                        assert(r[j]@ == x); assert(name_in(r, x));
-                        let i = choose|i: int| 0 <= i < t.len() && (#[trigger] t[i])@ == x;
-                        assert(s[i]@ == x);
-                    } else { assert(s[s.len() - 1]@ == x); }
-                }
+            assert forall|x: Seq<char>| name_in(s, x) implies name_in(d, x) by {
+                let i = choose|i: int| 0 <= i < s.len() && (#[trigger] s[i])@ == x;
+                if i < t.len() {
+                    assert(t[i]@ == x); assert(name_in(t, x)); assert(name_in(r, x));
+                    let j = choose|j: int| 0 <= j < r.len() && (#[trigger] r[j])@ == x;
+                    assert(d[j] == r[j]);
+                    assert(d[j]@ == x);
+                } else { assert(d[d.len() - 1] == s.last()); assert(d[d.len() - 1]@ == x); }
+            }
+            assert forall|x: Seq<char>| name_in(d, x) implies name_in(s, x) by {
+                let j = choose|j: int| 0 <= j < d.len() && (#[trigger] d[j])@ == x;
+                if j < r.len() {
+                    assert(d[j] == r[j]);
+                    assert(r[j]@ == x); assert(name_in(r, x)); assert(name_in(t, x));
+                    let i = choose|i: int| 0 <= i < t.len() && (#[trigger] t[i])@ == x;
+                    assert(s[i] == t[i]);
+                    assert(s[i]@ == x);
+                } else { assert(d[j] == s.last()); assert(s[s.len() - 1]@ == x); }
             }
         }
+    }
+}
+pub proof fn lemma_dedup_sorted_imp(s: Seq<String>)
+    ensures
+        segs_sorted(s) ==> segs_strict(dedup_spec(s)),
+        segs_sorted(s) ==> forall|x: Seq<char>| name_in(s, x) <==> name_in(dedup_spec(s), x),
+{
+    if segs_sorted(s) { lemma_dedup_sorted(s); }
+}
+pub proof fn lemma_concat_names(a: Seq<String>, d: Seq<String>)
+    ensures forall|x: Seq<char>| name_in(a + d, x) <==> (name_in(a, x) || name_in(d, x)),
+{
+    let c = a + d;
+    assert forall|x: Seq<char>| name_in(c, x) implies (name_in(a, x) || name_in(d, x)) by {
+        let i = choose|i: int| 0 <= i < c.len() && (#[trigger] c[i])@ == x;
+        if i < a.len() { assert(a[i]@ == x); } else { assert(d[i - a.len()]@ == x); }
+    }
+    assert forall|x: Seq<char>| (name_in(a, x) || name_in(d, x)) implies name_in(c, x) by {
+        if name_in(a, x) {
+            let i = choose|i: int| 0 <= i < a.len() && (#[trigger] a[i])@ == x;
+            assert(c[i]@ == x);
+        } else {
+            let i = choose|i: int| 0 <= i < d.len() && (#[trigger] d[i])@ == x;
+            assert(c[a.len() + i]@ == x);
+        }
+    }
+}
+// the MANIFEST that goes into the archive (m1) for the MANIFEST found on disk (m0): snapshot pointer, its sequence number and the
+// other header fields are kept; the segment list is strictly ascending in (file id, name) -- hence ascending in the file id and
+// free of duplicates -- and names exactly the listed segments plus the `added` ones
+pub open spec fn shipped_manifest(m0: Manifest, m1: Manifest, added: spec_fn(Seq<char>) -> bool) -> bool {
+    &&& m1.version == m0.version
+    &&& m1.latest_snapshot == m0.latest_snapshot
+    &&& m1.latest_snapshot_wal_seq == m0.latest_snapshot_wal_seq
+    &&& m1.last_updated == m0.last_updated
+    &&& segs_strict(m1.wal_segments@)
+    &&& forall|x: Seq<char>| #[trigger] name_in(m1.wal_segments@, x) <==> (name_in(m0.wal_segments@, x) || added(x))
+}
+pub proof fn lemma_shipped(m0: Manifest, m1: Manifest, added: spec_fn(Seq<char>) -> bool, diff: Seq<String>, sa: Seq<String>, sb: Seq<String>)
+    ensures
+        (m1.version == m0.version && m1.latest_snapshot == m0.latest_snapshot && m1.latest_snapshot_wal_seq == m0.latest_snapshot_wal_seq
+            && m1.last_updated == m0.last_updated
+            && (forall|x: Seq<char>| #[trigger] name_in(diff, x) <==> (added(x) && !name_in(m0.wal_segments@, x)))
+            && sa == m0.wal_segments@ + diff.take(diff.len() as int) && sa.to_multiset() == sb.to_multiset() && segs_sorted(sb) && m1.wal_segments@ == dedup_spec(sb))
+        ==> shipped_manifest(m0, m1, added),
+{
+    if m1.version == m0.version && m1.latest_snapshot == m0.latest_snapshot && m1.latest_snapshot_wal_seq == m0.latest_snapshot_wal_seq
+            && m1.last_updated == m0.last_updated
+            && (forall|x: Seq<char>| #[trigger] name_in(diff, x) <==> (added(x) && !name_in(m0.wal_segments@, x)))
+            && sa == m0.wal_segments@ + diff.take(diff.len() as int) && sa.to_multiset() == sb.to_multiset() && segs_sorted(sb) && m1.wal_segments@ == dedup_spec(sb) {
+        assert(diff.take(diff.len() as int) =~= diff);
+        lemma_concat_names(m0.wal_segments@, diff);
+        lemma_multiset_names(sa, sb);
+        lemma_dedup_sorted_imp(sb);
+        assert forall|x: Seq<char>| #[trigger] name_in(m1.wal_segments@, x) <==> (name_in(m0.wal_segments@, x) || added(x)) by {
+            assert(name_in(m1.wal_segments@, x) <==> name_in(sb, x));
+            assert(name_in(sb, x) <==> name_in(sa, x));
+            assert(name_in(sa, x) <==> (name_in(m0.wal_segments@, x) || name_in(diff, x)));
+            assert(name_in(diff, x) <==> (added(x) && !name_in(m0.wal_segments@, x)));
+        }
+    }
+}
+pub open spec fn is_file_entry(e: ArchiveEntry, dir: Seq<char>, name: Seq<char>) -> bool {
+    e.name@ == name && e.source is Path && e.source->Path_0@ == child(dir, name)
+}
+pub open spec fn is_bytes_entry(e: ArchiveEntry, name: Seq<char>, bytes: Seq<u8>) -> bool {
+    e.name@ == name && e.source is Bytes && e.source->Bytes_0@ == bytes
+}
+// entry off + i is the i-th listed segment, as a file of the data directory
+pub open spec fn seg_entry_ok(es: Seq<ArchiveEntry>, off: int, segs: Seq<String>, dir: Seq<char>, i: int) -> bool {
+    is_file_entry(es[off + i], dir, segs[i]@)
+}
+// entry off + i is the i-th element (name, path) of a directory listing
+pub open spec fn listing_entry_ok(es: Seq<ArchiveEntry>, off: int, l: Seq<(String, PathBuf)>, i: int) -> bool {
+    es[off + i].name == l[i].0 && es[off + i].source == ArchiveEntrySource::Path(l[i].1)
+}
+pub open spec fn max_id_listing(l: Seq<(String, PathBuf)>, n: int) -> Option<u64> decreases n {
+    if n <= 0 { None } else { max_opt(max_id_listing(l, n - 1), wal_file_id(l[n - 1].0@)) }
+}
+// ---- the de-duplication pass over the entry list: the FIRST entry of every name survives
+pub open spec fn entry_named(es: Seq<ArchiveEntry>, n: int, x: Seq<char>) -> bool { exists|k: int| 0 <= k < n && (#[trigger] es[k]).name@ == x }
+pub open spec fn uniq_first(es: Seq<ArchiveEntry>, n: int) -> Seq<ArchiveEntry> decreases n {
+    if n <= 0 { Seq::empty() } else if entry_named(es, n - 1, es[n - 1].name@) { uniq_first(es, n - 1) } else { uniq_first(es, n - 1).push(es[n - 1]) }
+}
+pub open spec fn entry_names_distinct(es: Seq<ArchiveEntry>) -> bool {
+    forall|i: int, j: int| 0 <= i < j < es.len() ==> (#[trigger] es[i]).name@ != (#[trigger] es[j]).name@
+}
+// with pairwise distinct names (the normal case) the pass changes nothing
+pub proof fn lemma_uniq_distinct(es: Seq<ArchiveEntry>, n: int)
+    requires entry_names_distinct(es), 0 <= n <= es.len(),
+    ensures uniq_first(es, n) == es.take(n),
+    decreases n
+{
+    if n > 0 {
+        lemma_uniq_distinct(es, n - 1);
+        if entry_named(es, n - 1, es[n - 1].name@) {
+            let k = choose|k: int| 0 <= k < n - 1 && (#[trigger] es[k]).name@ == es[n - 1].name@;
+            assert(es[k].name@ != es[n - 1].name@);
+        }
+        assert(es.take(n - 1).push(es[n - 1]) =~= es.take(n));
+    } else {
+        assert(es.take(0) =~= Seq::<ArchiveEntry>::empty());
     }
 }
 pub proof fn lemma_strict_props(s: Seq<String>)
